@@ -21,7 +21,12 @@ FmtCat == << Fmt("email", "\"user@example.com\"", TRUE), Fmt("email", "\"no-at-s
              Fmt("uuid", "\"123e4567-e89b-12d3-a456-42661417400g\"", FALSE),
              Fmt("date", "\"2021-12-31\"", TRUE), Fmt("date", "\"2021-13-45\"", FALSE), Fmt("date", "\"12/31/2021\"", FALSE),
              Fmt("datetime", "\"2021-12-31T23:59:59Z\"", TRUE), Fmt("datetime", "\"2021-01-02T07:23:12+03:00\"", TRUE),
-             Fmt("datetime", "\"2021-12-31 23:59:59\"", FALSE), Fmt("datetime", "\"2021-12-31\"", FALSE) >>
+             Fmt("datetime", "\"2021-12-31 23:59:59\"", FALSE), Fmt("datetime", "\"2021-12-31\"", FALSE),
+             \* a two-byte character where two digits are expected: the byte length is that of a valid value
+             \* (placeholder <E9>, TLC prints ASCII only)
+             Fmt("uuid", "\"550e8400-e29b-41d4-a716-4466554400<E9>\"", FALSE), Fmt("uuid", "\"<E9>50e8400e29b41d4a71644665544000\"", FALSE),
+             Fmt("date", "\"2021-12-<E9>\"", FALSE), Fmt("datetime", "\"2021-12-31T23:59:<E9>Z\"", FALSE),
+             Fmt("email", "\"<E9>\"", FALSE), Fmt("uri", "\"<E9>\"", FALSE) >>
 
 VARIABLES fam, root, typ, expect, stage, list
 vars == <<fam, root, typ, expect, stage, list>>
